@@ -349,5 +349,13 @@ def _edit(case, ctx):
                 ctx.violation(f"edit-wrong-value:{lab}", f"asked {want!r}, file now holds {newv!r}", one)
         if cls in ("wrong_type", "out_of_range", "unknown_key") and after != before:
             ctx.count("lenient_edit_applied:" + cls)
+            # an edit that is accepted must store what was asked for (2.5 is not 2): refusing is the other legitimate outcome
+            try:
+                same = (newv == v) or (isinstance(v, (int, float)) and not isinstance(v, bool) and isinstance(newv, (int, float)) and float(newv) == float(v))
+            except Exception:  # noqa: BLE001
+                same = False
+            if not same:
+                ctx.violation(f"edit-stored-another-value:{lab}", f"edit_header({k!r}, {v!r}) returned normally but the file now holds {newv!r}", one)
+                continue
         ctx.nontrivial_case(one)
     ctx.sample({"kind": "edit", "keys_present": [k for k, _ in items][:10], "menu_size": len(menu), "data_bytes": len(data)})
